@@ -18,8 +18,8 @@ ASSUMPTIONS = [
     'lifecycle hooks do not raise; no kill requests (C04)',
 ]
 BUDGET = {
-    'quick': {'enum': ['k1', 'k2', 'self2', 'listener', 'wc1', 'wc2', 'afterkill', 'reload', 'withdraw'], 'hyp': 4000, 'shards': 8},
-    'thorough': {'enum': ['k1', 'k2', 'k3', 'k4w', 'self3', 'listener', 'wc1', 'wc2', 'wc3', 'afterkill', 'reload', 'withdraw'], 'hyp': 120000, 'shards': 16},
+    'quick': {'enum': ['k1', 'k2', 'self2', 'listener', 'wc1', 'wc2', 'afterkill', 'reload', 'withdraw', 'hookstatus'], 'hyp': 4000, 'shards': 8},
+    'thorough': {'enum': ['k1', 'k2', 'k3', 'k4w', 'self3', 'listener', 'wc1', 'wc2', 'wc3', 'afterkill', 'reload', 'withdraw', 'hookstatus'], 'hyp': 120000, 'shards': 16},
 }
 ALPHABET = [['pause', 'pm'], ['pause', None], ['play'], ['resume', 1]]
 ALPHABET_SMALL = [['pause', 'pm'], ['play'], ['resume', 1]]
@@ -47,6 +47,15 @@ def enumerate_cases(tier, scope):
             for pre in ([['tick', 1]], [['tick', 2]]):
                 for mid in ([['pause', 'pm'], ['tick', 2], ['reload'], ['tick', 1], ['play']], [['pause', None], ['tick', 2], ['reload'], ['play'], ['pause', 'x'], ['tick', 1], ['reload'], ['play']], [['reload'], ['pause', 'pm'], ['tick', 1], ['play']], [['pause', 'pm'], ['tick', 2], ['reload'], ['reload'], ['play']]):
                     yield {'program': cat[name], 'schedule': pre + mid, 'tag': f'reload:{name}'}
+    elif scope == 'hookstatus':
+        # a lifecycle hook of the transition sets the status (an application reporting its phase): the play that ends a
+        # pause restores the status that was in place when the pause took effect, i.e. after that transition
+        for name in ('async2', 'chain', 'wait1', 'gated'):
+            for hook in ('on_running', 'on_waiting', 'on_entered', 'on_exit_running'):
+                for occ in (1, 2):
+                    for tick in (0, 1, 2, 3):
+                        sched = [['tick', tick], ['pause', 'pm'], ['tick', 3], ['play']] if tick else [['pause', 'pm'], ['tick', 3], ['play']]
+                        yield {'program': cat[name], 'schedule': sched, 'hooks': [{'hook': hook, 'occ': occ, 'pos': 'post', 'do': ['status', f'phase:{hook}:{occ}']}], 'tag': f'hookstatus:{name}'}
     elif scope == 'withdraw':
         # the caller cancels the future that a pending pause() returned (it gives up waiting for it): that request is
         # withdrawn like by a play(), and a later pause must work
@@ -173,12 +182,13 @@ def execute(case):
     for i, e in enumerate(trace):
         if e['k'] == 'status':
             status_at.append((i, e['value']))
+    hook_status = [(r['n_trace'] - 0.5, r['arg'], r['seq']) for r in calls if r['what'] == 'status' and not r['raised']]  # set from a hook, before the trace entry that follows it
     for r in calls:
         if r['what'] == 'play' and r['paused_before'] and not r['paused_after'] and r['live_before'] and not r['raised']:
             expected = None
-            for idx, value in status_at:
-                if idx < r['n_trace']:
-                    expected = value
+            cands = [(idx, value) for idx, value in status_at if idx < r['n_trace']] + [(idx, value) for idx, value, seq in hook_status if seq < r['seq_start']]
+            for _idx, value in sorted(cands, key=lambda t: t[0]):
+                expected = value
             if r.get('status_after') != expected:
                 v('status-not-restored', f"after play status={r.get('status_after')!r}, last status set by the program was {expected!r}")
     _ = last_status
